@@ -268,6 +268,9 @@ class Interp:
             if callable(m):
                 m = m(self)
             self.modules[dotted] = m
+            if not hasattr(self, 'ext_loaded'):
+                self.ext_loaded = set()
+            self.ext_loaded.add(dotted)
             return m
         path = self.find_source(dotted)
         if path is None:
